@@ -1,10 +1,25 @@
 /-
 C05 — ragged containers: every selection equals the same selection on nested lists.
-Property theorems only (helper lemmas live in TFVerif/Proofs).
+
+Property theorems only; helper lemmas are in TFVerif/Proofs/{Ragged,RaggedGrid,RaggedMET}.lean.
+
+Reading guide.  `MNT` / `MET` (TFVerif/Model/Ragged.lean) model `MultiNestedTensor` /
+`MultiEmbeddingTensor` with their flattened `values`/`offset` storage and the library's dispatch
+(`select` → `_single_index_select` / `_slice` → `narrow` / `index_select` → the per-axis primitives).
+`Grid` is the specification: a plain nested list of cells with Python-list indexing
+(`Index.positions` = the positions Python selects, `none` = Python/the library raises).
+`MNT.ofGrid g` / `MET.ofW w` is the (unique) well-formed storage of a grid: every theorem below says
+that an operation on well-formed storage yields the well-formed storage of the nested-list result.
+All statements are for every element type, every grid (any number of rows / columns incl. zero,
+any cell lengths), every index expression and every program — no bounds.
 -/
-import TFVerif.Model.Ragged
+import TFVerif.Proofs.RaggedMET
 
 namespace TFVerif.C05
+
+open TFVerif Grid
+
+/-! ### index normalisation is Python's -/
 
 /-- integer index normalisation is Python's: in range `-n ≤ i < n`, negative wraps once. -/
 theorem normIndex_python (n : Nat) (i : Int) (j : Nat) :
@@ -12,11 +27,172 @@ theorem normIndex_python (n : Nat) (i : Int) (j : Nat) :
   unfold normIndex
   by_cases h : i < 0 <;> simp [h] <;> omega
 
+/-- out-of-range integers raise (and only those). -/
 theorem normIndex_raises (n : Nat) (i : Int) :
     normIndex n i = none ↔ (i < -(n : Int) ∨ (n : Int) ≤ i) := by
   unfold normIndex
   by_cases h : i < 0 <;> simp [h] <;> omega
 
 example : normIndex 5 (-5) = some 0 ∧ normIndex 5 4 = some 4 ∧ normIndex 5 5 = none ∧ normIndex 0 0 = none := by decide
+
+/-- a slice with step 1 (or none) selects `xs[start:stop]` = `drop start |> take (stop - start)` with
+    both bounds clamped into `[0, n]` like `slice.indices(n)` — overshooting and far-negative bounds
+    never raise. -/
+theorem slice_step1_is_drop_take {β : Type} (xs : List β) (a b : Option Int) :
+    let (s, e) := sliceBounds xs.length a b
+    pick xs (slicePositions xs.length a b 1) = (xs.drop s).take (e - s) ∧ s ≤ xs.length ∧ e ≤ xs.length := by
+  simp only [slicePositions, sliceBounds, rangeStep_one]
+  have h2 := clampBound_le xs.length b xs.length (Nat.le_refl _)
+  have h1 := clampBound_le xs.length a 0 (Nat.zero_le _)
+  refine ⟨?_, h1, h2⟩
+  by_cases h : clampBound xs.length a 0 ≤ clampBound xs.length b xs.length
+  · exact pick_range' xs _ _ (by omega)
+  · have : clampBound xs.length b xs.length - clampBound xs.length a 0 = 0 := by omega
+    simp [this, pick]
+
+example : pick [10, 11, 12, 13, 14] (slicePositions 5 (some 1) (some 100) 1) = [11, 12, 13, 14] ∧
+    pick [10, 11, 12, 13, 14] (slicePositions 5 (some (-100)) (some 2) 1) = [10, 11] ∧
+    pick [10, 11, 12, 13, 14] (slicePositions 5 (some 100) (some 110) 1) = [] ∧
+    pick [10, 11, 12, 13, 14] (slicePositions 5 none none 2) = [10, 12, 14] := by decide
+
+/-- every selected position is inside the axis, for every index kind. -/
+theorem positions_in_range (n : Nat) (ix : Index) (ps : List Nat) (h : ix.positions n = some ps) :
+    ∀ p ∈ ps, p < n := positions_lt n ix ps h
+
+/-- exactly the documented illegal indices raise: out-of-range integers (alone or inside a list /
+    range / tensor), non-positive slice steps, boolean masks of the wrong length. -/
+theorem raises_iff (n : Nat) :
+    (∀ i, (Index.int i).positions n = none ↔ (i < -(n : Int) ∨ (n : Int) ≤ i)) ∧
+    (∀ a b, (Index.slice a b none).positions n ≠ none) ∧
+    (∀ a b k, (Index.slice a b (some k)).positions n = none ↔ k ≤ 0) ∧
+    (∀ bs, (Index.mask bs).positions n = none ↔ bs.length ≠ n) ∧
+    (∀ is, (Index.list is).positions n = none ↔ ∃ i ∈ is, (i < -(n : Int) ∨ (n : Int) ≤ i)) := by
+  refine ⟨?_, ?_, ?_, ?_, ?_⟩
+  · intro i; simp [Index.positions, normIndex_raises]
+  · intro a b; simp [Index.positions]
+  · intro a b k; by_cases hk : k ≤ 0 <;> simp [Index.positions, hk]
+  · intro bs; by_cases hb : bs.length = n <;> simp [Index.positions, hb]
+  · intro is
+    simp only [Index.positions]
+    induction is with
+    | nil => simp [normIndices]
+    | cons i is ih =>
+      simp only [normIndices, Option.bind_eq_bind, Option.pure_def, List.mem_cons, exists_eq_or_imp]
+      cases h1 : normIndex n i with
+      | none => simp [(normIndex_raises n i).1 h1]
+      | some j =>
+        have hn : ¬ (i < -(n : Int) ∨ (n : Int) ≤ i) := by
+          intro hc; rw [(normIndex_raises n i).2 hc] at h1; cases h1
+        cases h2 : normIndices n is with
+        | none => simp [hn, ← ih, h2]
+        | some js => simp [hn, ← ih, h2]
+
+/-! ### MultiNestedTensor -/
+
+/-- **One selection.** On the well-formed storage of any grid, `select` (hence `__getitem__`) returns
+    the well-formed storage of the nested-list selection, and raises exactly when that raises. -/
+theorem mnt_select_refines {α : Type} (g : Grid α) (hg : g.WF) (ix : Index) (dim : Nat)
+    (hd : dim = 0 ∨ dim = 1) :
+    (MNT.ofGrid g).select ix dim = (g.select ix dim).map MNT.ofGrid :=
+  select_ofGrid g hg ix dim hd
+
+/-- the result of a selection is a well-formed container again: it passes the constructor's
+    assertions, is the canonical storage of a well-formed grid, and reading its cells back
+    (`m[i, j]` for all `i, j`) gives exactly the selected nested list. -/
+theorem mnt_result_wellformed {α : Type} (g : Grid α) (hg : g.WF) (ix : Index) (dim : Nat)
+    (hd : dim = 0 ∨ dim = 1) (m' : MNT α) (h : (MNT.ofGrid g).select ix dim = some m') :
+    ∃ g', g.select ix dim = some g' ∧ g'.WF ∧ m' = MNT.ofGrid g' ∧ m'.validate = true ∧ m'.grid = g' := by
+  rw [mnt_select_refines g hg ix dim hd] at h
+  cases hs : g.select ix dim with
+  | none => simp [hs] at h
+  | some g' =>
+    simp only [hs, Option.map_some, Option.some.injEq] at h
+    have hw := select_WF g g' hg ix dim hs
+    exact ⟨g', rfl, hw, h.symm, by rw [← h]; exact validate_ofGrid g' hw, by rw [← h]; exact grid_ofGrid g' hw⟩
+
+/-- **Programs.** Any finite chain of selections (either axis, passing through empty results
+    included) on well-formed storage equals the chain on nested lists. -/
+theorem mnt_chain_refines {α : Type} (g : Grid α) (hg : g.WF) (prog : List (Index × Nat))
+    (hd : ∀ p ∈ prog, p.2 = 0 ∨ p.2 = 1) :
+    (MNT.ofGrid g).run prog = (g.run prog).map MNT.ofGrid ∧ (∀ g', g.run prog = some g' → g'.WF) :=
+  ⟨run_ofGrid g hg prog hd, fun g' h => run_WF g g' hg prog h⟩
+
+/-- `m[ix0, ix1]` is the row selection followed by the column selection. -/
+theorem mnt_getitem_tuple {α : Type} (g : Grid α) (hg : g.WF) (ix0 ix1 : Index) :
+    (MNT.ofGrid g).getitem2 ix0 ix1 = (g.run [(ix0, 0), (ix1, 1)]).map MNT.ofGrid := by
+  have h := run_ofGrid g hg [(ix0, 0), (ix1, 1)] (by intro p hp; simp at hp; rcases hp with rfl | rfl <;> simp)
+  rw [← h]
+  unfold MNT.getitem2
+  simp only [MNT.run]
+  cases (MNT.ofGrid g).select ix0 0 with
+  | none => rfl
+  | some m1 =>
+    simp only [Option.bind_some]
+    cases m1.select ix1 1 <;> rfl
+
+/-- single-cell access `m[i, j]` returns the cell of the nested list (Python-normalised indices),
+    and raises exactly for out-of-range `i` or `j`. -/
+theorem mnt_getitem_cell {α : Type} (g : Grid α) (hg : g.WF) (i j : Int) :
+    (MNT.ofGrid g).getValue i j =
+      (normIndex g.rows.length i).bind fun i' => (normIndex g.numCols j).map fun j' =>
+        (g.rows.getD i' []).getD j' [] :=
+  getValue_ofGrid g hg i j
+
+/-- non-vacuity: a 3×2 grid with ragged cells; a chain through a non-zero-based view
+    (`m[1:][:, [1, 0]][-1]`) computed on the storage equals the nested-list result. -/
+def g32 : Grid Nat := { numCols := 2, rows := [[[1, 2], [3]], [[4], [5, 6, 7]], [[8, 9], []]] }
+example : g32.WF := by intro row h; simp [g32] at h; rcases h with rfl | rfl | rfl <;> rfl
+example : (MNT.ofGrid g32).run [(.slice (some 1) none none, 0), (.list [1, 0], 1), (.int (-1), 0)]
+    = some { numRows := 1, numCols := 2, values := [8, 9], offset := [0, 0, 2] } := by decide
+example : (MNT.ofGrid g32).select (.slice (some 1) (some 100) none) 0
+    = some (MNT.ofGrid { numCols := 2, rows := [[[4], [5, 6, 7]], [[8, 9], []]] }) := by decide
+example : (MNT.ofGrid g32).select (.int 3) 0 = none ∧ (MNT.ofGrid g32).select (.slice none none (some 0)) 1 = none := by decide
+
+/-! ### MultiEmbeddingTensor -/
+
+/-- **One selection** (embedding container; along columns the widths are selected alongside). -/
+theorem met_select_refines {α : Type} (w : WGrid α) (hw : w.WF) (ix : Index) (dim : Nat)
+    (hd : dim = 0 ∨ dim = 1) :
+    (MET.ofW w).select ix dim = (w.select ix dim).map MET.ofW :=
+  met_select_ofW w hw ix dim hd
+
+/-- results are well-formed (offset/width/row-count/row-length mutually consistent — in particular
+    empty results keep two-dimensional storage) and read back as the selected nested list. -/
+theorem met_result_wellformed {α : Type} (w : WGrid α) (hw : w.WF) (ix : Index) (dim : Nat)
+    (hd : dim = 0 ∨ dim = 1) (m' : MET α) (h : (MET.ofW w).select ix dim = some m') :
+    ∃ w', w.select ix dim = some w' ∧ w'.WF ∧ m' = MET.ofW w' ∧ m'.WFRep ∧ m'.grid = w'.grid := by
+  rw [met_select_refines w hw ix dim hd] at h
+  cases hs : w.select ix dim with
+  | none => simp [hs] at h
+  | some w' =>
+    simp only [hs, Option.map_some, Option.some.injEq] at h
+    have hw' := met_select_WF w w' hw ix dim hd hs
+    exact ⟨w', rfl, hw', h.symm, by rw [← h]; exact met_wfrep_ofW w' hw', by rw [← h]; exact met_grid_ofW w' hw'⟩
+
+/-- **Programs** (embedding container). -/
+theorem met_chain_refines {α : Type} (w : WGrid α) (hw : w.WF) (prog : List (Index × Nat))
+    (hd : ∀ p ∈ prog, p.2 = 0 ∨ p.2 = 1) :
+    (MET.ofW w).run prog = (w.run prog).map MET.ofW ∧ (∀ w', w.run prog = some w' → w'.WF) :=
+  ⟨met_run_ofW w hw prog hd, fun w' h => met_run_WF w w' hw prog hd h⟩
+
+/-- the grid part of the embedding specification is exactly the nested-list selection of C05. -/
+theorem met_select_grid {α : Type} (w : WGrid α) (ix : Index) (dim : Nat) :
+    (w.select ix dim).map (·.grid) = w.grid.select ix dim := by
+  simp [WGrid.select, Grid.select, Option.map_map, Function.comp_def]
+
+theorem met_getitem_cell {α : Type} (w : WGrid α) (hw : w.WF) (i j : Int) :
+    (MET.ofW w).getValue i j =
+      (normIndex w.grid.rows.length i).bind fun i' => (normIndex w.grid.numCols j).map fun j' =>
+        (w.grid.rows.getD i' []).getD j' [] :=
+  met_getValue_ofW w hw i j
+
+def w23 : WGrid Nat :=
+  { grid := { numCols := 3, rows := [[[1, 2, 3], [4, 5], [6]], [[7, 8, 9], [10, 11], [12]]] }, widths := [3, 2, 1] }
+example : w23.WF := by
+  refine ⟨rfl, ?_⟩; intro row h; simp [w23] at h; rcases h with rfl | rfl <;> rfl
+example : (MET.ofW w23).run [(.slice (some 0) (some 0) none, 0), (.int 1, 1)]
+    = some { numRows := 0, numCols := 1, width := 2, values := [], offset := [0, 2] } := by decide
+example : (MET.ofW w23).run [(.slice (some 1) (some 10) none, 0), (.list [2, 0], 1)]
+    = some { numRows := 1, numCols := 2, width := 4, values := [[12, 7, 8, 9]], offset := [0, 1, 4] } := by decide
 
 end TFVerif.C05
